@@ -4,7 +4,9 @@
  *             function replaced ON BOTH SIDES by the same logging stub (goto-instrument --replace-calls
  *             MD5Transform:vf_md5_T): the sequence of 64-byte blocks fed and the digest must equal the
  *             RFC 1321 padding of the message folded through the stub.
- *  VF_MODE 3: end-to-end qhashmd5 == reference MD5 (cross-check, few lengths). */
+ *  VF_MODE 3: end-to-end qhashmd5 == reference MD5 (cross-check, few lengths).
+ *  VF_MODE 4: as mode 2, but the message is fed in TWO MD5Update calls (first VF_A bytes, then the rest) the way
+ *             qhashmd5_file streams a file: buffering of a partial block across calls. */
 #include "vf.h"
 #include <stdio.h>
 #include <sys/types.h>
@@ -62,9 +64,19 @@ void vf_harness(void) {
     for (size_t i = 0; i < n; i++) buf[i] = vfin.msg[i];
     uint8_t got[16], want[16];
     uint8_t scratch[VF_N + 72 + 64];
+#if VF_MODE == 4
+    {
+        MD5_CTX ctx;
+        MD5Init(&ctx);
+        MD5Update(&ctx, buf, VF_A);
+        MD5Update(&ctx, buf + VF_A, (unsigned int)(n - VF_A));
+        MD5Final(got, &ctx);
+    }
+#else
     bool ok = qhashmd5(buf, n, got);
     VF_ASSERT(ok, "C18.md5.ok: qhashmd5 succeeds on valid arguments");
-#if VF_MODE == 2
+#endif
+#if VF_MODE == 2 || VF_MODE == 4
     ref_md5(vfin.msg, n, want, ref_T_logged, scratch);
     VF_ASSERT(vf_ncalls == ref_ncalls && ref_ncalls == NBLK, "C18.md5.nblocks: number of compression calls = padded length / 64");
     VF_ASSERT(vf_first_state[0] == 0x67452301u && vf_first_state[1] == 0xefcdab89u && vf_first_state[2] == 0x98badcfeu && vf_first_state[3] == 0x10325476u,
